@@ -75,7 +75,7 @@ def run(pid, tier, only_cases=None, debug=False):
             if wev["close"] == "ok" and os.path.exists(gofile):
                 rc, lines, err = cside.run(cdrv, "read", c, infile, gofile)
                 if rc != 0:
-                    res.append({"id": "A-" + cid, "nh": 1, "events": [wev, {"op": "scan", "refs": [], "logs": [], "min": 0, "max": 0,
+                    res.append({"id": "A-" + cid, "nh": 1, "events": [wev, {"op": "scan", "refs": [], "logs": [], "min": 0, "max": 0, "reuse": "",
                                                                             "err": "C reader crashed (rc=%d): %s" % (rc, err[-300:])}]})
                 else:
                     res.append({"id": "A-" + cid, "nh": 1, "events": [wev] + cside.read_events(c, lines)})
